@@ -481,7 +481,7 @@ class Ref:
                     fits)
 
     # -- statements -------------------------------------------------------
-    def store_value(self, dest, node):
+    def store_value(self, dest, node, plain=False):
         """the set of bit patterns the destination may hold afterwards, and
         the number of low bits that are constrained (0 = unchecked)"""
         size, signed, dfixed = self.spec.info(dest)
@@ -497,7 +497,13 @@ class Ref:
         bits = 8 * size
         if isinstance(fmt, tuple):
             return vals, None
+        lim = 1 << (bits - 1)
         if node.fits and all(self.fit(v, node.signed) for v in vals):
+            nbits = bits
+        elif plain and self.scale_guard and dfixed and \
+                all(-lim <= v < lim for v in vals):
+            # a constant stored as it is: scaled once at most, at compile
+            # time; no arithmetic that would need the x 10^10 head room
             nbits = bits
         elif node.ring and not node.fixed and not dfixed:
             nbits = min(bits, self.W)
@@ -637,7 +643,8 @@ def run_ref(specd, inputs, scale_guard=False):
                     check_inputs([t])
                     ref.W = ref.width_of([t], dest)
                     node = ref.ev(t, store)
-                    vals, nbits = ref.store_value(dest, node)
+                    vals, nbits = ref.store_value(dest, node,
+                                                  plain=t[0] in "cf")
                 except (Unchecked, Poisoned) as ex:
                     out["notes"].append((p, str(ex)))
                     known_bits[dest] = 0
